@@ -374,11 +374,15 @@ BODIES = [
     # (the authenticated text is then not a Manifest: load must reject it, or at least never
     # yield entries that differ from the authenticated text)
     ('not-dash-escaped', 'DATA a 0\n- DATA x 0\nIGNORE c\n', True),
+    # signed normally although the body holds a line that already starts with '- ': gpg writes it as
+    # '- - DATA x 0'; one level of unescaping gives '- DATA x 0', which is NOT an entry - load must never
+    # turn it into the entry 'DATA x 0' (dash-escaping is exactly one level, RFC 4880 7.1)
+    ('double-dash', 'DATA a 0\n- DATA x 0\nIGNORE c\n', False),
     # signed with gpg --not-dash-escaped, body is a valid Manifest taken literally
     ('not-dash-escaped-plain', 'DATA a 0\nDATA x 0\nIGNORE c\n', True),
 ]
 # bases whose unmutated text must be accepted by load (the literal '- ' body is not a Manifest)
-MUST_ACCEPT_BASES = [b[0] for b in BODIES if b[0] != 'not-dash-escaped']
+MUST_ACCEPT_BASES = [b[0] for b in BODIES if b[0] not in ('not-dash-escaped', 'double-dash')]
 HEADERS = ('Hash: SHA256', 'Comment: x', 'NotDashEscaped: yes')
 
 
